@@ -7,6 +7,13 @@ S-inputs : every bound value and every caller value (unbounded ints).
 Oracle   : written from the property text (longest applicable prefix wins,
            caller wins over everything, non-prefix scopes never apply,
            nothing => signature default or a TypeError before the body).
+
+Widened vocabulary (second half of the module): c01_scopes2 (the active scope comes from a scoped
+selector / scoped reference / captured configurable / failed or clearing config_scope / mutated scope
+list: the rule is applied to the scope in force INSIDE the call), c01_keys2 (key spellings, config
+text, odd and repeated scope names), c01_full (one signature combining every parameter kind),
+c01_shapes2 (__new__-built classes, constructor-less classes, inherited registered constructor) and
+c01_values2 (identity of caller objects, None, containers).
 """
 import contextlib
 
@@ -253,6 +260,689 @@ def c01_introspect(nsc: int, shape: int, stack: int, q: int,
   return True
 
 
+# =====================================================================================================
+# Widened vocabulary (review items 4, 6-12; items 1, 2, 3, 5 as separately reported shapes).
+# Extra probe configurables live under the Gin module path `vw01`; they are registered once per process.
+# =====================================================================================================
+import functools as _functools
+import typing as _typing
+
+from gin import config as gc
+
+DA, DB, DC = world.DA, world.DB, -103
+
+
+class NoCopy:
+  """A caller value that cannot be copied: it can only arrive as the very same object."""
+
+  def __deepcopy__(self, memo):
+    raise RuntimeError('NoCopy objects must never be copied')
+
+  def __copy__(self):
+    raise RuntimeError('NoCopy objects must never be copied')
+
+
+def _define_probes():
+  if 'vw01.full' in gc._REGISTRY:       # idempotent (the module may be imported under two names)
+    return
+  rec = world.rec
+
+  @gin.configurable(module='vw01')
+  def full(a, b=DB, *rest, c=DC, **kw):
+    rec('full', a, b, *rest, c=c, **kw)
+    return (a, b, rest, c, kw)
+
+  @gin.configurable(module='vw01')
+  class NT(_typing.NamedTuple):      # constructed through a generated __new__(_cls, a=DA, b=DB)
+    a: int = DA
+    b: int = DB
+
+  @gin.configurable(module='vw01')
+  class KNew:                        # only __new__, no __init__ of its own
+
+    def __new__(cls, a=DA, b=DB):
+      rec('KNew', a, b)
+      return object.__new__(cls)
+
+  @gin.configurable(module='vw01')
+  class DSub(dict):                  # no constructor of its own: builtin **kwargs shape
+    pass
+
+  @gin.register(module='vw01')
+  class DReg(dict):
+    pass
+
+  @gin.configurable(module='vw01')
+  class KBase:
+
+    def __init__(self, a=DA, b=DB):
+      rec(type(self).__name__, a, b)
+
+  @gin.configurable(module='vw01')
+  class KSub(KBase):                 # registered subclass inheriting a registered constructor
+    pass
+
+  # ---- shapes outside the quantifier's list (reported separately, see LIMITS below) ----
+  @gin.configurable(module='vw01')
+  def posonly(a=DA, /, b=DB):
+    rec('posonly', a, b)
+    return (a, b)
+
+  class _CallObj:
+
+    def __call__(self, a=DA, b=DB):
+      rec('callobj', a, b)
+      return (a, b)
+
+    def m(self, a=DA, b=DB):
+      rec('bmeth', a, b)
+      return (a, b)
+
+  gin.external_configurable(_CallObj(), 'callobj', module='vw01')
+  gin.external_configurable(_CallObj().m, 'bmeth', module='vw01')
+
+  @gin.register(module='vw01')
+  class NC:
+
+    def __init__(self, new_cls=DA, b=DB):
+      rec('NC', new_cls, b)
+
+
+_define_probes()
+
+
+def _w(sel):
+  return gc._REGISTRY[sel].wrapper
+
+
+def model_at(active, binds):
+  """(has, value) of the binding at the longest scope in `binds` [(scope string, value)] that is a prefix of
+  `active` - the property's rule, for arbitrary scope strings."""
+  best, best_len = None, -1
+  for scope, v in binds:
+    comps = scope.split('/') if scope else []
+    if comps == active[:len(comps)] and len(comps) > best_len:
+      best, best_len = v, len(comps)
+  return best_len >= 0, best
+
+
+def _call_args(ma, mb, ca, cb):
+  pos, kw = [], {}
+  if ma == 1:
+    pos.append(ca)
+  elif ma == 2:
+    kw['a'] = ca
+  if mb == 1:
+    pos.append(cb)
+  elif mb == 2:
+    kw['b'] = cb
+  return pos, kw
+
+
+# ---- c01_scopes2: the active scope is established by something other than plain config_scope nesting ----------
+# (history kind, target): targets 0 dflt (function), 1 Kreg (gin.register class), 2 Kinit (gin.configurable
+# class), 3 Kmeth.meth (registered method of a registered class)
+HIST = [
+    'sel1',       # 0  inside ['s2']: get_configurable('s1/<sel>')(...), then a plain call in the same block
+    'sel2',       # 1  inside ['s2','s1']: get_configurable('s1/s2/<sel>')(...)
+    'ref',        # 2  text `s2/vw.cons.p = @s1/<sel>`; inside ['s2']: cons() returns it, then it is called
+    'refcall',    # 3  text `vw.cons.p = @s1/s2/<sel>()` evaluated while cons() runs inside ['s2','s1']
+    'capture',    # 4  inside ['s2']: g = get_configurable('<sel>'); inside ['s1']: g(...)
+    'captureobj', # 5  inside ['s1','s2']: g = get_configurable(<object>); at the root: g(...)
+    'badname',    # 6  inside ['s1']: config_scope('bad name') raises; then a call
+    'badtype',    # 7  inside ['s1','s2']: config_scope(5) and config_scope(['s2', 'no good']) raise; then a call
+    'empty',      # 8  inside ['s1']: config_scope('') clears for the inner call; the outer call sees ['s1'] again
+    'cmoutside',  # 9  cm = config_scope('s2') created at the root, entered inside ['s1']
+    'alias',      # 10 lst = ['s1']; with config_scope(lst): call; lst.append('s2'); call
+    'inst',       # 11 (method) inside ['s1']: obj = get_configurable('vw.Kmeth')(); inside ['s2']: obj.meth(...)
+    'instsel',    # 12 (method) obj = get_configurable('s1/s2/vw.Kmeth')() at the root; inside ['s2']: obj.meth(...)
+]
+KT = [(h, t) for t in range(3) for h in range(11)] + [(11, 3), (12, 3)]
+TGT_SEL = ['vw.dflt', 'vw.Kreg', 'vw.Kinit', 'vw.Kmeth.meth']
+
+
+def c01_scopes2(kt: int, ma: int, mb: int,
+                pa0: bool, pa1: bool, pa2: bool, pa3: bool, pa4: bool, pa5: bool, pb1: bool,
+                va0: int, va1: int, va2: int, va3: int, va4: int, va5: int, vb1: int,
+                ca: int, cb: int) -> bool:
+  """
+  pre: 0 <= kt < 35 and 0 <= ma < 3 and 0 <= mb < 3
+  """
+  world.fresh()
+  kt = rt.pick(kt, len(KT))
+  ma = rt.pick(ma, 3)
+  mb = rt.pick(mb, 3)
+  hist, tgt = KT[kt]
+  if mb == 1 and ma != 1:
+    rt.discard()
+  if hist == 3 and (ma or mb):
+    rt.discard()                        # an evaluated reference is called by Gin, without arguments
+  sel = TGT_SEL[tgt]
+  cs = gin.config_scope
+  binds_a = []
+  for i, (p, v) in enumerate(((pa0, va0), (pa1, va1), (pa2, va2), (pa3, va3), (pa4, va4), (pa5, va5))):
+    if rt.flag(p):
+      gin.bind_parameter((SC[i], sel, 'a'), v)
+      binds_a.append((SC[i], v))
+  binds_b = []
+  if rt.flag(pb1):
+    gin.bind_parameter('s1/' + sel + '.b', vb1)
+    binds_b.append(('s1', vb1))
+  rt.sig(('scopes2', HIST[hist], tgt, ma, mb, tuple(s for s, _ in binds_a), bool(binds_b)),
+         nontrivial=bool(binds_a))
+  pos, kw = _call_args(ma, mb, ca, cb)
+  if tgt == 0:
+    root_fn, obj_key = world.dflt, world.dflt
+  elif tgt == 1:
+    root_fn, obj_key = gin.get_configurable(world.Kreg), world.Kreg
+  elif tgt == 2:
+    root_fn, obj_key = world.Kinit, world.Kinit
+  else:
+    root_fn = obj_key = None
+
+  # expectations, one per recorded call of the target: (scope rule, caller arguments used)
+  #   ('is', [...])    the scope seen inside the call must be exactly this (config_scope's own contract)
+  #   ('ends', [...])  it must end with these components (a scoped selector applies its scope; whether it
+  #                    replaces or extends the caller's stack is not the property's business)
+  #   ('in', [..])     one of several readings
+  #   None             whatever scope is in force inside the call is the "currently active scope"
+  exp = []
+  ok_stack = True
+  if hist == 0:
+    with cs('s2'):
+      gin.get_configurable('s1/' + sel)(*pos, **kw)
+      exp.append((('ends', ['s1']), True))
+      ok_stack = ok_stack and gin.current_scope() == ['s2']
+      root_fn()
+      exp.append((('is', ['s2']), False))
+  elif hist == 1:
+    with cs('s2'):
+      with cs('s1'):
+        gin.get_configurable('s1/s2/' + sel)(*pos, **kw)
+        exp.append((('ends', ['s1', 's2']), True))
+        ok_stack = ok_stack and gin.current_scope() == ['s2', 's1']
+  elif hist == 2:
+    with rt.native():
+      gin.parse_config('s2/vw.cons.p = @s1/' + sel + '\n')
+    with cs('s2'):
+      p = world.cons()[0]
+      p(*pos, **kw)
+      exp.append((('ends', ['s1']), True))
+      ok_stack = ok_stack and gin.current_scope() == ['s2']
+  elif hist == 3:
+    with rt.native():
+      gin.parse_config('vw.cons.p = @s1/s2/' + sel + '()\n')
+    with cs('s2/s1'):
+      world.cons()
+      exp.append((('ends', ['s1', 's2']), False))
+      ok_stack = ok_stack and gin.current_scope() == ['s2', 's1']
+  elif hist == 4:
+    with cs('s2'):
+      g = gin.get_configurable(sel)
+    with cs('s1'):
+      g(*pos, **kw)
+      exp.append((None, True))
+      ok_stack = ok_stack and gin.current_scope() == ['s1']
+  elif hist == 5:
+    with cs('s1/s2'):
+      g = gin.get_configurable(obj_key)
+    g(*pos, **kw)
+    exp.append((None, True))
+  elif hist == 6:
+    with cs('s1'):
+      try:
+        with cs('bad name'):
+          pass
+      except ValueError:
+        pass
+      root_fn(*pos, **kw)
+      exp.append((('is', ['s1']), True))
+  elif hist == 7:
+    with cs('s1/s2'):
+      for bad in (5, ['s2', 'no good']):
+        try:
+          with cs(bad):
+            pass
+        except ValueError:
+          pass
+      root_fn(*pos, **kw)
+      exp.append((('is', ['s1', 's2']), True))
+  elif hist == 8:
+    with cs('s1'):
+      with cs(''):
+        root_fn(*pos, **kw)
+        exp.append((('is', []), True))
+      root_fn()
+      exp.append((('is', ['s1']), False))
+  elif hist == 9:
+    cm = cs('s2')
+    with cs('s1'):
+      with cm:
+        root_fn(*pos, **kw)
+        exp.append((('in', [['s1', 's2'], ['s2']]), True))
+      ok_stack = ok_stack and gin.current_scope() == ['s1']
+  elif hist == 10:
+    lst = ['s1']
+    with cs(lst):
+      root_fn(*pos, **kw)
+      exp.append((None, True))
+      lst.append('s2')
+      root_fn()
+      exp.append((None, False))
+  elif hist == 11:
+    with cs('s1'):
+      obj = gin.get_configurable('vw.Kmeth')()
+    with cs('s2'):
+      obj.meth(*pos, **kw)
+      exp.append((None, True))
+      ok_stack = ok_stack and gin.current_scope() == ['s2']
+  else:
+    obj = gin.get_configurable('s1/s2/vw.Kmeth')()
+    with cs('s2'):
+      obj.meth(*pos, **kw)
+      exp.append((None, True))
+      ok_stack = ok_stack and gin.current_scope() == ['s2']
+  if not ok_stack or gin.current_scope() != []:
+    return rt.no('the scope stack was not what config_scope left / not restored')
+
+  short = sel.split('.', 1)[1]
+  calls = [r for r in world.LOG if r[0] == short]
+  if len(calls) != len(exp):
+    return rt.no('number of recorded calls')
+  for (_, args, kwargs, seen), (rule, used) in zip(calls, exp):
+    if rule is not None:
+      how, want = rule
+      if how == 'is' and seen != want:
+        return rt.no('scope inside the call')
+      if how == 'ends' and seen[len(seen) - len(want):] != want:
+        return rt.no('scoped selector did not apply its scope')
+      if how == 'in' and seen not in want:
+        return rt.no('scope inside the call (neither reading)')
+    has_a, bound_a = model_at(seen, binds_a)
+    has_b, bound_b = model_at(seen, binds_b)
+    exp_a = ca if (used and ma) else (bound_a if has_a else DA)
+    exp_b = cb if (used and mb) else (bound_b if has_b else DB)
+    if len(args) != 2 or kwargs:
+      return rt.no('shape of the recorded call')
+    if not (rt.same('a', args[0], exp_a) and rt.same('b', args[1], exp_b)):
+      return False
+  return True
+
+
+# ---- c01_keys2: other ways of writing the binding key / other scope names ---------------------------------------
+KF = ['tuple', 'str', 'tuple-partial', 'str-partial', 'text', 'text-partial', 'text-macro-level1', 'text-block']
+CHAIN = [['s1', 's1'], ['x_2', 'S9'], ['s.x', 'm.n_0']]       # [2] dotted names: not writable as config text
+OFFSIDE = ['s1/s1/s1', 'S9', 'm.n_0/s.x']                     # never a prefix of any stack of the same chain
+KC = [(f, c) for f in range(8) for c in range(2)] + [(f, 2) for f in range(4)]
+
+
+def c01_keys2(kc: int, depth: int, ef: int, ma: int, pb: bool,
+              p0: bool, p1: bool, p2: bool, p3: bool,
+              v0: int, v1: int, v2: int, v3: int, vb: int, ca: int) -> bool:
+  """
+  pre: 0 <= kc < 20 and 0 <= depth < 3 and 0 <= ef < 3 and 0 <= ma < 3
+  """
+  world.fresh()
+  kc = rt.pick(kc, len(KC))
+  depth = rt.pick(depth, 3)
+  ef = rt.pick(ef, 3)
+  ma = rt.pick(ma, 3)
+  kf, ch = KC[kc]
+  chain = CHAIN[ch]
+  if depth < 2 and ef:
+    rt.discard()                          # the way of entering only differs for two components
+  scopes = ['', chain[0], chain[0] + '/' + chain[1], OFFSIDE[ch]]
+  vals = [v0, v1, v2, v3]
+  present = [rt.flag(p0), rt.flag(p1), rt.flag(p2), rt.flag(p3)]
+  pb = rt.flag(pb)
+  rt.sig(('keys2', KF[kf], ch, depth, ef, ma, tuple(present), pb), nontrivial=any(present[:depth + 1]))
+  lines = []
+  for i in range(4):
+    if not present[i]:
+      continue
+    pre = scopes[i] + '/' if scopes[i] else ''
+    if kf == 0:
+      gin.bind_parameter((scopes[i], 'vw.dflt', 'a'), vals[i])
+    elif kf == 1:
+      gin.bind_parameter(pre + 'vw.dflt.a', vals[i])
+    elif kf == 2:
+      gin.bind_parameter((scopes[i], 'dflt', 'a'), vals[i])
+    elif kf == 3:
+      gin.bind_parameter(pre + 'dflt.a', vals[i])
+    else:
+      gin.constant('vwc.A%d' % i, vals[i])
+      if kf == 4:
+        lines.append('%svw.dflt.a = %%vwc.A%d' % (pre, i))
+      elif kf == 5:
+        lines.append('%sdflt.a = %%vwc.A%d' % (pre, i))
+      elif kf == 6:
+        if i == 1:
+          lines.append('MA1 = %vwc.A1')
+          lines.append('%svw.dflt.a = %%MA1' % pre)
+        else:
+          lines.append('%svw.dflt.a = %%vwc.A%d' % (pre, i))
+      else:
+        lines.append('%svw.dflt:' % pre)
+        lines.append('  a = %%vwc.A%d' % i)
+  if pb:
+    gin.bind_parameter((chain[0], 'vw.dflt', 'b'), vb)
+  if lines:
+    with rt.native():
+      gin.parse_config('\n'.join(lines) + '\n')
+  active = chain[:depth]
+  with contextlib.ExitStack() as es:
+    if ef == 0:
+      for s in active:
+        es.enter_context(gin.config_scope(s))
+    elif ef == 1:
+      es.enter_context(gin.config_scope('/'.join(active)))
+    else:
+      es.enter_context(gin.config_scope(list(active)))
+    inner = gin.current_scope()
+    if ma == 1:
+      world.dflt(ca)
+    elif ma == 2:
+      world.dflt(a=ca)
+    else:
+      world.dflt()
+  if inner != active or gin.current_scope() != []:
+    return rt.no('scope stack')
+  calls = [r for r in world.LOG if r[0] == 'dflt']
+  if len(calls) != 1:
+    return rt.no('number of recorded calls')
+  _, args, kwargs, seen = calls[0]
+  if seen != active or len(args) != 2 or kwargs:
+    return rt.no('scope / shape of the recorded call')
+  has_a, bound_a = model_at(active, [(scopes[i], vals[i]) for i in range(4) if present[i]])
+  exp_a = ca if ma else (bound_a if has_a else DA)
+  exp_b = vb if (pb and depth >= 1) else DB
+  return rt.same('a', args[0], exp_a) and rt.same('b', args[1], exp_b)
+
+
+# ---- c01_full: one signature in which positional prefix, *rest, keyword-only and **kw interact ---------------
+def c01_full(ma: int, mb: int, xr: bool, mc: int, mk: int, stack: int,
+             pa0: bool, pa1: bool, pb1: bool, pc0: bool, pc1: bool, pk1: bool,
+             va0: int, va1: int, vb1: int, vc0: int, vc1: int, vk1: int,
+             ca: int, cb: int, cc: int, ck: int, cx: int) -> bool:
+  """
+  pre: 0 <= ma < 3 and 0 <= mb < 3 and 0 <= mc < 2 and 0 <= mk < 2 and 0 <= stack < 3
+  """
+  world.fresh()
+  ma = rt.pick(ma, 3)
+  mb = rt.pick(mb, 3)
+  mc = rt.pick(mc, 2)
+  mk = rt.pick(mk, 2)
+  stack = rt.pick(stack, 3)
+  xr = rt.flag(xr)
+  if mb == 1 and ma != 1:
+    rt.discard()
+  if xr and not (ma == 1 and mb == 1):
+    rt.discard()                          # surplus positionals need the whole named prefix
+  active = [[], ['s1'], ['s2']][stack]
+  binds = {'a': [], 'b': [], 'c': [], 'k': []}
+  for name, scope, p, v in (('a', '', pa0, va0), ('a', 's1', pa1, va1), ('b', 's1', pb1, vb1),
+                            ('c', '', pc0, vc0), ('c', 's1', pc1, vc1), ('k', 's1', pk1, vk1)):
+    if rt.flag(p):
+      gin.bind_parameter((scope, 'vw01.full', name), v)
+      binds[name].append((scope, v))
+  rt.sig(('full', ma, mb, xr, mc, mk, stack, tuple((n, tuple(s for s, _ in binds[n])) for n in 'abck')),
+         nontrivial=any(binds[n] for n in 'abck'))
+  pos, kw = _call_args(ma, mb, ca, cb)
+  if xr:
+    pos.extend([cx, cx])
+  if mc:
+    kw['c'] = cc
+  if mk:
+    kw['k'] = ck
+  has = {}
+  val = {}
+  for n in 'abck':
+    has[n], val[n] = model_at(active, binds[n])
+  err = None
+  with contextlib.ExitStack() as es:
+    for s in active:
+      es.enter_context(gin.config_scope(s))
+    try:
+      _w('vw01.full')(*pos, **kw)
+    except TypeError as e:
+      err = e
+  if gin.current_scope() != []:
+    return rt.no('scope stack not restored')
+  if not ma and not has['a']:
+    # `a` has no default: TypeError before the body
+    return err is not None and not world.LOG
+  if err is not None or len(world.LOG) != 1:
+    return rt.no('unexpected error / number of calls')
+  _, args, kwargs, seen = world.LOG[0]
+  if seen != active:
+    return rt.no('scope inside the call')
+  exp_a = ca if ma else val['a']
+  exp_b = cb if mb else (val['b'] if has['b'] else DB)
+  exp_c = cc if mc else (val['c'] if has['c'] else DC)
+  if len(args) != (4 if xr else 2):
+    return rt.no('positional arguments')
+  if xr and not (rt.same('x', args[2], cx) and rt.same('x', args[3], cx)):
+    return False
+  if not (rt.same('a', args[0], exp_a) and rt.same('b', args[1], exp_b)):
+    return False
+  want_keys = ['c'] + (['k'] if (mk or has['k']) else [])
+  if sorted(kwargs) != want_keys:
+    return rt.no('keyword arguments')
+  if not rt.same('c', kwargs['c'], exp_c):
+    return False
+  if mk or has['k']:
+    return rt.same('k', kwargs['k'], ck if mk else val['k'])
+  return True
+
+
+# ---- c01_shapes2: classes built through __new__ / without a constructor / inheriting a registered one --------
+SHAPES2 = ['NT', 'KNew', 'DSub', 'DReg', 'KSub',
+           # shapes the quantifier does not list; the combinations Gin cannot serve are discarded (LIMITS)
+           'posonly', 'wrapped', 'callobj', 'bmeth', 'NC']
+LIMITS = ('outside the quantified shapes, discarded: positional-only parameter with an applicable binding and no '
+          'caller value (Gin injects by keyword); signature-agnostic functools.wraps wrapper, callable instance, '
+          'bound method and a subclass inheriting a registered constructor called POSITIONALLY for a parameter '
+          'that also has an applicable binding (Gin cannot name the positional); a constructor parameter called '
+          '`new_cls` on a gin.register class when bound or passed by keyword')
+
+
+def c01_shapes2(shape: int, stack: int, ma: int, mb: int, pbase: bool,
+                pa0: bool, pa1: bool, pa4: bool, pb0: bool, pb1: bool,
+                va0: int, va1: int, va4: int, vb0: int, vb1: int, vbase: int, ca: int, cb: int) -> bool:
+  """
+  pre: 0 <= shape < 10 and 0 <= stack < 3 and 0 <= ma < 3 and 0 <= mb < 3
+  """
+  world.fresh()
+  shape = rt.pick(shape, len(SHAPES2))
+  stack = rt.pick(stack, 3)
+  ma = rt.pick(ma, 3)
+  mb = rt.pick(mb, 3)
+  name = SHAPES2[shape]
+  if mb == 1 and ma != 1:
+    rt.discard()
+  if name in ('DSub', 'DReg') and (ma == 1 or mb == 1):
+    rt.discard()                          # a positional argument of dict() is a mapping, not a parameter
+  pbase = rt.flag(pbase)
+  if pbase and name != 'KSub':
+    rt.discard()
+  if name == 'posonly' and ma == 2:
+    rt.discard()                          # Python itself forbids it
+  an = 'new_cls' if name == 'NC' else 'a'
+  sel = 'vw.wrapped' if name == 'wrapped' else 'vw01.' + name
+  active = [[], ['s1'], ['s2']][stack]
+  binds_a, binds_b = [], []
+  for scope, p, v in (('', pa0, va0), ('s1', pa1, va1), ('s2', pa4, va4)):
+    if rt.flag(p):
+      gin.bind_parameter((scope, sel, an), v)
+      binds_a.append((scope, v))
+  for scope, p, v in (('', pb0, vb0), ('s1', pb1, vb1)):
+    if rt.flag(p):
+      gin.bind_parameter((scope + '/' if scope else '') + sel + '.b', v)
+      binds_b.append((scope, v))
+  if pbase:
+    gin.bind_parameter('vw01.KBase.b', vbase)
+  has_a, bound_a = model_at(active, binds_a)
+  has_b, bound_b = model_at(active, binds_b)
+  # ---- combinations Gin is known not to serve, for shapes outside the quantifier's list (see LIMITS) ----
+  if name == 'posonly' and has_a and ma == 0:
+    rt.discard()
+  if name in ('wrapped', 'callobj', 'bmeth', 'KSub') and ((ma == 1 and has_a) or (mb == 1 and has_b)):
+    rt.discard()
+  if name == 'NC' and ((has_a and ma == 0) or ma == 2):
+    rt.discard()
+  rt.sig(('shapes2', name, stack, ma, mb, pbase, tuple(s for s, _ in binds_a), tuple(s for s, _ in binds_b)),
+         nontrivial=(has_a and not ma) or (has_b and not mb))
+  pos, kw = [], {}
+  if ma == 1:
+    pos.append(ca)
+  elif ma == 2:
+    kw[an] = ca
+  if mb == 1:
+    pos.append(cb)
+  elif mb == 2:
+    kw['b'] = cb
+  exp_a = ca if ma else (bound_a if has_a else DA)
+  exp_b = cb if mb else (bound_b if has_b else DB)
+  with contextlib.ExitStack() as es:
+    for s in active:
+      es.enter_context(gin.config_scope(s))
+    res = _w(sel)(*pos, **kw)
+  if gin.current_scope() != []:
+    return rt.no('scope stack not restored')
+  if name in ('DSub', 'DReg'):
+    if world.LOG or not isinstance(res, dict):
+      return rt.no('dict subclass result')
+    keys = sorted(res)
+    want = (['a'] if (ma or has_a) else []) + (['b'] if (mb or has_b) else [])
+    if keys != want:
+      return rt.no('keys of the constructed dict')     # unbound and not passed: not supplied at all
+    if 'a' in want and not rt.same('a', res['a'], exp_a):
+      return False
+    if 'b' in want and not rt.same('b', res['b'], exp_b):
+      return False
+    return True
+  if name == 'NT':
+    if world.LOG or len(res) != 2:
+      return rt.no('NamedTuple result')
+    return rt.same('a', res[0], exp_a) and rt.same('b', res[1], exp_b)
+  if len(world.LOG) != 1:
+    return rt.no('number of recorded calls')
+  _, args, kwargs, seen = world.LOG[0]
+  if seen != active or len(args) != 2 or kwargs:
+    return rt.no('scope / shape of the recorded call')
+  if not rt.same('a', args[0], exp_a):
+    return False
+  if pbase and not mb and not has_b:
+    # nothing binds KSub.b; the inherited constructor is itself the configurable KBase whose b is bound.
+    # "left to the function's own defaults": both the plain default and KBase's configured value are readings.
+    return rt.same('b', args[1], DB) or rt.same('b', args[1], vbase)
+  return rt.same('b', args[1], exp_b)
+
+
+# ---- c01_values2: value kinds other than ints (identity of caller values, None, containers) --------------------
+VSHAPES = ['dflt', 'kwo', 'Kreg', 'varkwo']
+CALLER_OBJS = [[1, [2]], None, NoCopy()]          # created once, outside any tracing
+CALLER_B = {'k': [3]}
+BOUND_LIST = [4, [5], {'z': 6}]
+BOUND = [None, 7, None, BOUND_LIST]               # binding kinds: 0 absent, 1 int, 2 None, 3 list
+
+
+def c01_values2(shape: int, stack: int, ma: int, cv: int, mb: int, bk0: int, bk1: int) -> bool:
+  """
+  pre: 0 <= shape < 4 and 0 <= stack < 2 and 0 <= ma < 3 and 0 <= cv < 3 and 0 <= mb < 2 and 0 <= bk0 < 4 and 0 <= bk1 < 4
+  """
+  world.fresh()
+  shape = rt.pick(shape, 4)
+  stack = rt.pick(stack, 2)
+  ma = rt.pick(ma, 3)
+  cv = rt.pick(cv, 3)
+  mb = rt.pick(mb, 2)
+  bk0 = rt.pick(bk0, 4)
+  bk1 = rt.pick(bk1, 4)
+  name = VSHAPES[shape]
+  if name == 'kwo' and ma == 1:
+    rt.discard()
+  if ma == 0 and cv:
+    rt.discard()                          # no caller value: its kind is irrelevant
+  rt.sig(('values2', name, stack, ma, cv, mb, bk0, bk1), nontrivial=bool(bk0 or bk1))
+  if bk0:
+    gin.bind_parameter('vw.' + name + '.a', BOUND[bk0])
+  if bk1:
+    gin.bind_parameter('s1/vw.' + name + '.a', BOUND[bk1])
+  gin.bind_parameter('s1/vw.' + name + '.b', [8, 9])
+  active = ['s1'] if stack else []
+  obj = CALLER_OBJS[cv]
+  pos, kw = [], {}
+  if ma == 1:
+    pos.append(obj)
+  elif ma == 2:
+    kw['a'] = obj
+  if mb:
+    kw['b'] = CALLER_B
+  fn = gin.get_configurable(world.Kreg) if name == 'Kreg' else getattr(world, name)
+  with contextlib.ExitStack() as es:
+    for s in active:
+      es.enter_context(gin.config_scope(s))
+    fn(*pos, **kw)
+  if len(world.LOG) != 1:
+    return rt.no('number of recorded calls')
+  _, args, kwargs, seen = world.LOG[0]
+  if seen != active:
+    return rt.no('scope inside the call')
+  got_a = args[0]
+  got_b = kwargs['b'] if name == 'varkwo' else args[1]
+  # identity first, on the objects exactly as recorded (realising would copy them)
+  if mb and got_b is not CALLER_B:
+    return rt.no('caller keyword object was replaced')
+  if ma and got_a is not obj:
+    return rt.no('caller value did not reach the function unchanged (identity)')
+  with rt.native():
+    if not mb:
+      got_b = rt.realize(got_b)
+    if not ma:
+      got_a = rt.realize(got_a)
+    # b: the caller's dict is the very object passed; otherwise the list bound under s1, or the default
+    if mb:
+      pass
+    elif stack:
+      if type(got_b) is not list or got_b != [8, 9]:
+        return rt.no('bound list')
+    elif got_b != DB:
+      return rt.no('default of b')
+    if ma:
+      return True
+    kind = bk1 if (stack and bk1) else bk0
+    if kind == 0:
+      return got_a == DA
+    if kind == 1:
+      return type(got_a) is int and got_a == 7
+    if kind == 2:
+      return got_a is None                # a bound None is a value, not "no binding"
+    return type(got_a) is list and got_a == [4, [5], {'z': 6}] and BOUND_LIST == [4, [5], {'z': 6}]
+
+
+def _smoke(base, variants):
+  out = []
+  for v in variants:
+    d = dict(base)
+    d.update(v)
+    out.append(d)
+  return out
+
+
+_S2 = dict(kt=0, ma=0, mb=2, pa0=True, pa1=True, pa2=True, pa3=False, pa4=True, pa5=False, pb1=True,
+           va0=1, va1=2, va2=3, va3=4, va4=5, va5=6, vb1=7, ca=13, cb=14)
+_K2 = dict(kc=0, depth=2, ef=0, ma=0, pb=True, p0=True, p1=True, p2=True, p3=True, v0=1, v1=2, v2=3, v3=4,
+           vb=5, ca=13)
+_F2 = dict(ma=1, mb=1, xr=True, mc=0, mk=0, stack=1, pa0=True, pa1=True, pb1=True, pc0=True, pc1=True, pk1=True,
+           va0=1, va1=2, vb1=3, vc0=4, vc1=5, vk1=6, ca=13, cb=14, cc=15, ck=16, cx=17)
+_SH2 = dict(shape=0, stack=1, ma=0, mb=2, pbase=False, pa0=True, pa1=True, pa4=True, pb0=True, pb1=False,
+            va0=1, va1=2, va4=3, vb0=4, vb1=5, vbase=6, ca=13, cb=14)
+_V2 = dict(shape=0, stack=1, ma=0, cv=0, mb=1, bk0=1, bk1=2)
+
+_KT_QUICK = [KT.index((h, 0)) for h in range(11)] + [KT.index((h, 1)) for h in (0, 2, 3, 4)] + \
+    [KT.index((11, 3)), KT.index((12, 3))]
+
 _FALSE6 = dict(pa5=False, pb5=False)
 
 HARNESSES = {
@@ -312,4 +1002,93 @@ HARNESSES = {
         bounds='as c01_inject; get_bindings by selector and by object, strict and '
                'inheriting; query_parameter at every scope',
     ),
+    'c01_scopes2': dict(
+        fn='c01_scopes2',
+        anchors=['gin.config:_decorate_with_scope', 'gin.config:scoping_wrapper', 'gin.config:config_scope',
+                 'gin.config:gin_wrapper', 'gin.config:get_configurable'],
+        smoke=_smoke(_S2, [dict(kt=KT.index((h, 0)), mb=0 if h == 3 else 2) for h in range(11)] +
+                     [dict(kt=KT.index((0, 1)), ma=1, mb=1), dict(kt=KT.index((11, 3))),
+                      dict(kt=KT.index((12, 3)), ma=1)]),
+        tiers={
+            'quick': dict(split=dict(kt=_KT_QUICK), fixed=dict(pa0=True, pa3=False, pa5=False, pb1=True), budget_s=100),
+            'thorough': dict(split=dict(kt=list(range(len(KT))), ma=[0, 1, 2]), fixed={}, budget_s=900),
+        },
+        bounds='13 histories that establish the active scope by something other than nested config_scope names: '
+               'scoped selectors through get_configurable (inside another scope), scoped references (@s1/x kept, '
+               '@s1/s2/x() evaluated inside another scope), a configurable captured under one scope and called '
+               'under another (by selector, by object), a scoped registered-class instance whose registered '
+               'method is called under another scope, config_scope with an invalid name / type / list raising '
+               'inside an active scope, config_scope(""), a context manager created outside and entered '
+               'inside a scope, a scope list mutated while active. Oracle: the arguments seen by the probe are '
+               'those the rule gives for the scope in force INSIDE the call (recorded by the probe); that scope '
+               'itself is only constrained where config_scope alone defines it (failed entry leaves no trace, '
+               '"" clears, with-blocks restore) or to END with the components of a scoped selector. '
+               'quick: function target for all, gin.register class for 4, a bound at "" (always) and any subset of s1, s1/s2, s2; b at s1; '
+               'every caller split. thorough: function / register class / configurable class, 6 binding scopes',
+    ),
+    'c01_keys2': dict(
+        fn='c01_keys2',
+        anchors=['gin.config:bind_parameter', 'gin.config:parse_config', 'gin.config_parser:parse_binding_key',
+                 'gin.config:_get_bindings'],
+        smoke=_smoke(_K2, [dict(kc=KC.index((f, f % 2))) for f in range(8)] + [dict(kc=KC.index((3, 2)), ef=2, ma=1)]),
+        tiers={
+            'quick': dict(split=dict(kc=list(range(len(KC)))), fixed=dict(ef=0, pb=True, ma=0), budget_s=100),
+            'thorough': dict(split=dict(kc=list(range(len(KC))), depth=[0, 1, 2]), fixed={}, budget_s=600),
+        },
+        bounds='8 ways of writing the key of `vw.dflt.a` (tuple / string with full or partial selector; config '
+               'text with full / partial selector, as an indented block, and with a %macro value at one prefix '
+               'level) x 3 scope chains: a repeated component [s1,s1] (bindings at "", s1, s1/s1 and the longer '
+               'non-prefix s1/s1/s1), names with "_" and digits [x_2,S9], dotted names [s.x,m.n_0] (API key forms '
+               'only: config text cannot spell them); active stack = every prefix of the chain; quick enters by '
+               'nested names and lets Gin supply a, thorough also enters by "a/b" and by list and passes a '
+               'positionally / by keyword',
+    ),
+    'c01_full': dict(
+        fn='c01_full',
+        anchors=['gin.config:gin_wrapper', 'gin.config:_get_supplied_positional_parameter_names'],
+        smoke=_smoke(_F2, [dict(), dict(ma=0, mb=2, xr=False, mc=1, mk=1), dict(ma=2, mb=0, xr=False, stack=2)]),
+        tiers={
+            'quick': dict(split=dict(ma=[0, 1, 2], mc=[0, 1], mk=[0, 1]), fixed=dict(stack=1, pb1=True),
+                          budget_s=100),
+            'thorough': dict(split=dict(ma=[0, 1, 2], mb=[0, 1, 2], mc=[0, 1], mk=[0, 1], stack=[0, 1, 2]),
+                             fixed={}, budget_s=600),
+        },
+        bounds='def full(a, b=DB, *rest, c=DC, **kw): a and c bound at any subset of "", s1; b and the **kw name k '
+               'at s1; every split of a, b between omitted / positional / keyword, surplus positionals, c and k '
+               'omitted or by keyword; quick: active stack [s1], thorough also [] and the non-prefix [s2]',
+    ),
+    'c01_shapes2': dict(
+        fn='c01_shapes2',
+        anchors=['gin.config:gin_wrapper', 'gin.config:meta_call_wrapper', 'gin.config:_get_bindings'],
+        smoke=_smoke(_SH2, [dict(shape=s, ma=1 if s in (5, 9) else 0) for s in range(10)] +
+                     [dict(shape=4, pbase=True, mb=0, pb0=False)]),
+        tiers={
+            'quick': dict(split=dict(shape=list(range(10))), fixed=dict(stack=1, pb0=False), budget_s=100),
+            'thorough': dict(split=dict(shape=list(range(10)), stack=[0, 1, 2]), fixed={}, budget_s=600),
+        },
+        bounds='classes constructed through __new__ (NamedTuple with defaults, a class with only __new__), dict '
+               'subclasses without a constructor of their own (gin.configurable and gin.register), a registered '
+               'subclass inheriting a registered constructor (with and without a binding on the base class: where '
+               'only the base binds b both the plain default and the base value are accepted). a bound at "", s1 '
+               'and the non-prefix s2, b at "" and s1; stacks [], [s1], [s2] (quick: [s1]); every caller split. '
+               'Five shapes beyond the quantified list are run as well with the unservable combinations '
+               'discarded: ' + LIMITS,
+    ),
+    'c01_values2': dict(
+        fn='c01_values2',
+        anchors=['gin.config:gin_wrapper', 'gin.config:_get_bindings'],
+        smoke=_smoke(_V2, [dict(), dict(shape=1, ma=2, cv=2), dict(shape=2, ma=1, cv=1, bk1=3),
+                           dict(shape=3, ma=0, bk0=3, bk1=0, mb=0)]),
+        tiers={
+            'quick': dict(split=dict(shape=[0, 1, 2, 3]), fixed=dict(stack=1)),
+            'thorough': dict(split=dict(shape=[0, 1, 2, 3], stack=[0, 1]), fixed={}),
+        },
+        bounds='value kinds other than ints: the caller passes a list / None / an object that cannot be copied '
+               '(positionally or by keyword, plus a dict for b) for a parameter that is also bound: the function '
+               'must receive the very same object; bindings at "" and s1 of kind int / None / nested list: a '
+               'bound None is a value (overrides a shorter prefix), a bound list arrives equal; 4 shapes',
+    ),
 }
+
+OUTSIDE = ('real OS threads and suspended generators (the per-thread stack on ONE thread only); classes defining '
+           '__new__ whose base defines __init__; ' + LIMITS)
